@@ -981,7 +981,7 @@ Proof.
   pose proof (uc_run_entries _ _ _ _ _ W R) as U1. pose proof (uc_close _ _ H) as U2.
   unfold uc in *. simpl in *. rewrite U2, app_length. unfold trail_of, wf_trail in *.
   destruct (o_lossless o && (0 <? tlen)).
-  - simpl. rewrite U1, (T eq_refl). lia.
+  - specialize (T eq_refl). simpl. rewrite U1. lia.
   - rewrite U1. simpl. lia.
 Qed.
 
@@ -996,7 +996,9 @@ Proof.
     destruct (run_parts i o ps (w_cs w) (w_fs w)) as [ws'| |] eqn:R'; try discriminate. simpl in H. injection H as <-.
     simpl. unfold combine_members. simpl. rewrite payloads_app, app_length. fold (combine_members ws').
     rewrite (IH _ _ _ Wps R').
-    rewrite (writer_unc _ _ _ _ _ _ _ Wp ltac:(unfold wf_trail; rewrite andb_false_r; discriminate) R). lia.
+    assert (T0 : wf_trail i o 0).
+    { unfold wf_trail. intros Z. rewrite andb_comm in Z. discriminate Z. }
+    rewrite (writer_unc _ _ _ _ _ _ _ Wp T0 R). lia.
 Qed.
 
 Lemma build_unc : forall i m chunk minc tlen es cs fs b, Forall (wf_entry i) es ->
